@@ -32,7 +32,7 @@ def infeasibleIds : List (String × Nat) := [
   ("uninitMemberVarPrivateNoCtor", 0x756e696e69744d656d626572566172507269766174654e6f43746f72)
 ]
 
-/-- F-C28: ids that analysed code makes cppcheck report (witness per id in corpus/C28/) but that --errorlist does not print.
+/-- F28a–F28q: ids that analysed code makes cppcheck report (witness per id in corpus/C28/) but that --errorlist does not print.
     This list is the explicit exclusion of the partial theorems; any further unlisted id breaks them. -/
 def knownUnlisted : List (String × Nat) := [
   ("allocaCalled", 0x616c6c6f636143616c6c6564),
@@ -56,7 +56,6 @@ def knownUnlisted : List (String × Nat) := [
   ("internalAstError", 0x696e7465726e616c4173744572726f72),
   ("internalError", 0x696e7465726e616c4572726f72),
   ("iterateByValue", 0x69746572617465427956616c7565),
-  ("legacyUninitvar", 0x6c6567616379556e696e6974766172),
   ("noValidConfiguration", 0x6e6f56616c6964436f6e66696775726174696f6e),
   ("normalCheckLevelMaxBranches", 0x6e6f726d616c436865636b4c6576656c4d61784272616e63686573),
   ("nullPointerArithmeticOutOfMemory", 0x6e756c6c506f696e74657241726974686d657469634f75744f664d656d6f7279),
@@ -70,7 +69,6 @@ def knownUnlisted : List (String × Nat) := [
   ("templateRecursion", 0x74656d706c617465526563757273696f6e),
   ("tooLargeBitField", 0x746f6f4c617267654269744669656c64),
   ("uninitMemberVarNoCtor", 0x756e696e69744d656d6265725661724e6f43746f72),
-  ("uninitvar", 0x756e696e6974766172),
   ("unknownMacro", 0x756e6b6e6f776e4d6163726f)
 ]
 
